@@ -616,7 +616,8 @@ def suite_mc_matrix_sb(ctx, can_run_model):
         feat["clock"] = False
         feat["stateless"] = False
         feat["sink"] = rng.random() < 0.45      # an order-recording stateless sink: converging histories (C11 hash)
-        base = gen_mc.gen_fanin_base(rng) if j % 5 == 2 else gen_mc.gen_relay_longpair_base(rng) if j % 10 == 4 else gen_mc.gen_base(rng, feat)
+        base = gen_mc.gen_fanin_base(rng) if j % 5 == 2 else gen_mc.gen_relay_longpair_base(rng) if j % 10 == 4 else \
+            gen_mc.gen_twin_delay_base(rng) if j % 10 == 9 else gen_mc.gen_base(rng, feat)
         feat_count(ctx, base["feat"])
         g = {}
         for st in ("BFS", "DFS"):
